@@ -415,20 +415,21 @@ theorem toArray_inj_nat {a b : List Nat} (h : a.toArray = b.toArray) : a = b := 
   simpa using this
 
 /-- the main loop with the pair count: when it ends normally, `npairs_reached` is the number of right ends -/
-theorem c2wMainC (n : Nat) (ct : List Nat) (hct : CtOk n ct) :
+theorem c2wMainC (simple : Bool) (n : Nat) (ct : List Nat) (hct : CtOk n ct) :
     ∀ (fuel j : Nat) (pda : List Int) (st st' : C2W) (cct : List Nat) (rb : List Int),
-      n + 1 ≤ j + fuel → j ≤ n + 1 → 1 ≤ j → GInv n ct j pda st cct rb → st.reached = cntSpec n ct cct j →
-      c2wMain false ct.toArray n fuel j pda st = .ok st' → st'.reached = rightEnds ct (n+1) := by
+      n + 1 ≤ j + fuel → j ≤ n + 1 → 1 ≤ j → GInv n ct j pda st cct rb → (simple = true → ∀ a ∈ pda, 0 ≤ a) →
+      st.reached = cntSpec n ct cct j →
+      c2wMain simple ct.toArray n fuel j pda st = .ok st' → st'.reached = rightEnds ct (n+1) := by
   intro fuel
   induction fuel with
   | zero =>
-    intro j pda st st' cct rb hf hju _ inv hcnt h
+    intro j pda st st' cct rb hf hju _ inv _ hcnt h
     simp only [c2wMain] at h
     injection h with h; subst h
     have : j = n + 1 := by omega
     subst this; rw [hcnt, cntSpec_end]
   | succ fuel ih =>
-    intro j pda st st' cct rb hf hju hj1 inv hcnt h
+    intro j pda st st' cct rb hf hju hj1 inv hnm hcnt h
     unfold c2wMain at h
     by_cases hend : j > n
     · rw [if_pos hend] at h
@@ -452,21 +453,21 @@ theorem c2wMainC (n : Nat) (ct : List Nat) (hct : CtOk n ct) :
         · omega
     by_cases h0 : cct.getD j 0 = 0
     · simp only [h0, beq_self_eq_true, if_true] at h
-      exact ih (j+1) _ st st' cct rb (by omega) (by omega) (by omega) (ginv_push hct inv hj1 (Or.inl h0))
+      exact ih (j+1) _ st st' cct rb (by omega) (by omega) (by omega) (ginv_push hct inv hj1 (Or.inl h0)) (nomark_push j hnm)
         (by rw [hpushcnt (Or.inl h0)]; exact hcnt) h
     · have hb : (cct.getD j 0 == 0) = false := by rw [beq_eq_false_iff_ne]; exact h0
       simp only [hb, Bool.false_eq_true, if_false] at h
       by_cases hleft : j < cct.getD j 0
       · rw [if_pos hleft] at h
-        exact ih (j+1) _ st st' cct rb (by omega) (by omega) (by omega) (ginv_push hct inv hj1 (Or.inr hleft))
+        exact ih (j+1) _ st st' cct rb (by omega) (by omega) (by omega) (ginv_push hct inv hj1 (Or.inr hleft)) (nomark_push j hnm)
           (by rw [hpushcnt (Or.inr hleft)]; exact hcnt) h
       · rw [if_neg hleft] at h
-        obtain ⟨above, below, _, _, hitems, hitsorted, hstep⟩ := ginv_right_end n ct hct inv hj1 hjn h0 hleft
+        obtain ⟨above, below, hsplit, _, hitems, hitsorted, hstep⟩ := ginv_right_end simple n ct hct inv hnm hj1 hjn h0 hleft
         have hsj := cct_sym hct inv.cok j h0
         split at h
         · cases h
         · rename_i res hres
-          obtain ⟨hfound, hcct1, hpk1, ⟨hreach1, hsz1, hrb1, _⟩, mf', hpda1, hnext⟩ := hstep res hres
+          obtain ⟨hfound, hcct1, hpk1, ⟨hreach1, hsz1, hrb1, _⟩, hd, hpda1, _, hhds, hnext⟩ := hstep res hres
           obtain ⟨found, pda1, st1⟩ := res
           simp only at hfound hcct1 hpk1 hpda1 hnext h hreach1
           subst hfound hpda1
@@ -507,18 +508,36 @@ theorem c2wMainC (n : Nat) (ct : List Nat) (hct : CtOk n ct) :
               have hpa := hct.2 a (by rw [← hsa.1]; exact hA.2.2.1)
               refine ⟨by omega, by omega, by omega, hpa.2.2.2.1, hpa.2.2.2.2.1, ?_⟩
               rw [← hsa.1, hsa.2.1]; omega
-            exact ih (j+1) (mf' :: below) st2 st' cct' rb' (by omega) (by omega) (by omega) inv' hcnt' h
+            exact ih (j+1) (hd ++ below) st2 st' cct' rb' (by omega) (by omega) (by omega) inv' (nomark_next (hsplit ▸ hnm) hhds) hcnt' h
 
 /-- the main loop on an arbitrary symmetric table can fail in ONE way only: "not enough letters" -/
-theorem c2wMain_err (n : Nat) (ct : List Nat) (hct : CtOk n ct) :
+theorem popLoop_noerrB (simple : Bool) (n : Nat) (ct cct : List Nat) (hlen : ct.length = n + 1) (hclen : cct.length = n + 1) (j i : Nat)
+    (below above : List Int) (hj : 1 ≤ j ∧ j ≤ n) (hi : 1 ≤ i ∧ i < j) (hij : cct.getD i 0 = j) (st : C2W) (e : WErr)
+    (habove : ∀ a ∈ above, (a < 0 ∧ -4 ≤ a) ∨ (0 ≤ a ∧ 1 ≤ a.toNat ∧ a.toNat ≤ n ∧ cct.getD a.toNat 0 ≠ j))
+    (hnm : simple = true → ∀ a ∈ above, 0 ≤ a)
+    (hcct : st.cct = cct.toArray) (hsz : st.ss.size = n) (haux : st.auxss = []) :
+    popLoop simple ct.toArray j (above ++ (i : Int) :: below) 0 (-1) st ≠ .error e := by
+  cases simple with
+  | false =>
+    exact popLoopG_noerr n ct cct hlen hclen j i below hj hi hij above 0 (-1) st e habove (by omega) (by omega) hcct hsz
+      (by rw [haux]; simp)
+  | true =>
+    refine popLoopGS_noerr n ct cct hlen hclen j i below hj hi hij above 0 (-1) st e ?_ hcct hsz
+    intro a ha
+    have h0a := hnm rfl a ha
+    rcases habove a ha with h1 | h1
+    · omega
+    · exact h1
+
+theorem c2wMain_err (simple : Bool) (n : Nat) (ct : List Nat) (hct : CtOk n ct) :
     ∀ (fuel j : Nat) (pda : List Int) (st : C2W) (cct : List Nat) (rb : List Int) (e : WErr),
-      j ≤ n + 1 → 1 ≤ j → GInv n ct j pda st cct rb →
-      c2wMain false ct.toArray n fuel j pda st = .error e → ∃ p, e = .einvalLetters p := by
+      j ≤ n + 1 → 1 ≤ j → GInv n ct j pda st cct rb → (simple = true → ∀ a ∈ pda, 0 ≤ a) →
+      c2wMain simple ct.toArray n fuel j pda st = .error e → ∃ p, e = .einvalLetters p := by
   intro fuel
   induction fuel with
-  | zero => intro j pda st cct rb e _ _ _ h; simp only [c2wMain] at h; cases h
+  | zero => intro j pda st cct rb e _ _ _ _ h; simp only [c2wMain] at h; cases h
   | succ fuel ih =>
-    intro j pda st cct rb e hju hj1 inv h
+    intro j pda st cct rb e hju hj1 inv hnm h
     unfold c2wMain at h
     by_cases hend : j > n
     · rw [if_pos hend] at h; cases h
@@ -529,23 +548,23 @@ theorem c2wMain_err (n : Nat) (ct : List Nat) (hct : CtOk n ct) :
     simp only [Int.toNat_natCast] at h
     by_cases h0 : cct.getD j 0 = 0
     · simp only [h0, beq_self_eq_true, if_true] at h
-      exact ih (j+1) _ st cct rb e (by omega) (by omega) (ginv_push hct inv hj1 (Or.inl h0)) h
+      exact ih (j+1) _ st cct rb e (by omega) (by omega) (ginv_push hct inv hj1 (Or.inl h0)) (nomark_push j hnm) h
     · have hb : (cct.getD j 0 == 0) = false := by rw [beq_eq_false_iff_ne]; exact h0
       simp only [hb, Bool.false_eq_true, if_false] at h
       by_cases hleft : j < cct.getD j 0
       · rw [if_pos hleft] at h
-        exact ih (j+1) _ st cct rb e (by omega) (by omega) (ginv_push hct inv hj1 (Or.inr hleft)) h
+        exact ih (j+1) _ st cct rb e (by omega) (by omega) (ginv_push hct inv hj1 (Or.inr hleft)) (nomark_push j hnm) h
       · rw [if_neg hleft] at h
-        obtain ⟨above, below, hsplit, habove, hitems, hitsorted, hstep⟩ := ginv_right_end n ct hct inv hj1 hjn h0 hleft
+        obtain ⟨above, below, hsplit, habove, hitems, hitsorted, hstep⟩ := ginv_right_end simple n ct hct inv hnm hj1 hjn h0 hleft
         have hsj := cct_sym hct inv.cok j h0
         split at h
         · rename_i err herr
           exfalso
           rw [hsplit] at herr
-          exact popLoopG_noerr n ct cct hct.1 inv.cok.len j (cct.getD j 0) below ⟨hj1, hjn⟩ ⟨hsj.2.2.2.2.1, by omega⟩ hsj.2.1
-            above 0 (-1) st err habove (by omega) (by omega) inv.hcct inv.sssize (by rw [inv.noaux]; simp) herr
+          exact popLoop_noerrB simple n ct cct hct.1 inv.cok.len j (cct.getD j 0) below above ⟨hj1, hjn⟩ ⟨hsj.2.2.2.2.1, by omega⟩ hsj.2.1
+            st err habove (fun hs a ha => hnm hs a (by rw [hsplit]; simp [ha])) inv.hcct inv.sssize inv.noaux herr
         · rename_i res hres
-          obtain ⟨hfound, hcct1, hpk1, ⟨hreach1, hsz1, hrb1, _⟩, mf', hpda1, hnext⟩ := hstep res hres
+          obtain ⟨hfound, hcct1, hpk1, ⟨hreach1, hsz1, hrb1, _⟩, hd, hpda1, _, hhds, hnext⟩ := hstep res hres
           obtain ⟨found, pda1, st1⟩ := res
           simp only at hfound hcct1 hpk1 hpda1 hnext h hreach1 hsz1 hrb1
           subst hfound hpda1
@@ -589,37 +608,7 @@ theorem c2wMain_err (n : Nat) (ct : List Nat) (hct : CtOk n ct) :
                 simp only [Int.toNat_natCast] at hst2
                 exact Or.inr hst2
             obtain ⟨cct', rb', inv'⟩ := hnext st2 hdis
-            exact ih (j+1) (mf' :: below) st2 cct' rb' e (by omega) (by omega) inv' h
-
-theorem ginv_init (n : Nat) (ct : List Nat) (hct : CtOk n ct) :
-    GInv n ct 1 [] { ss := Array.replicate n (0x3a : UInt8), cct := ct.toArray, rb := Array.replicate 26 (-1),
-                     auxpk := [], auxss := [], reached := 0 } ct (List.replicate 26 (-1)) := by
-  have hl1 : ct.length = n + 1 := hct.1
-  have hrbrep : (Array.replicate 26 (-1 : Int)) = (List.replicate 26 (-1 : Int)).toArray := by
-    apply Array.ext'; simp
-  exact {
-    hcct := rfl, hrb := hrbrep
-    cok := ⟨hl1, fun p => Or.inl rfl, fun p hp => by
-      have h1' := hct.2 p hp
-      constructor
-      · intro e; exact absurd e hp
-      · intro e; rw [h1'.2.2.2.2.1] at e; omega⟩
-    nopk := rfl, noaux := rfl, sssize := by simp
-    ent := by intro a ha; simp at ha
-    sorted := by simp
-    lefts := by intro p h1 h2; omega
-    paired := by intro a ha; simp at ha
-    l1 := by
-      intro q hq _
-      simp only [ssAt, Array.toList_replicate, List.getD_eq_getElem?_getD, List.getElem?_replicate, hq, if_true,
-                 Option.getD_some]
-      decide
-    l2 := by intro j0 h1 h2; omega
-    bn := by intro j0 i' h1 h2; omega
-    linv := {
-      rblen := by simp
-      lab := by intro p hp1 hp2 hp3; omega
-      non := by intro p p' hp1 hp2 hp3; omega } }
+            exact ih (j+1) (hd ++ below) st2 cct' rb' e (by omega) (by omega) inv' (nomark_next (hsplit ▸ hnm) hhds) h
 
 theorem cntSpec_init (n : Nat) (ct : List Nat) : cntSpec n ct ct 1 = 0 := by
   simp only [cntSpec, List.length_eq_zero_iff, List.filter_eq_nil_iff, decide_eq_true_eq]
@@ -627,28 +616,33 @@ theorem cntSpec_init (n : Nat) (ct : List Nat) : cntSpec n ct ct 1 = 0 := by
   · omega
   · exact a c
 
-/-- TOTALITY of `esl_ct2wuss` on every symmetric pair table (crossing pairs allowed): it returns `eslOK`, or the
+/-- TOTALITY of `esl_ct2wuss` / `esl_ct2simplewuss` on every symmetric pair table (crossing pairs allowed): `eslOK`, or the
     documented `eslEINVAL` "Don't have enough letters to describe all different pseudoknots" — never an out-of-bounds
     access, never "Cannot find left partner", never `eslEINCONCEIVABLE`, never `eslFAIL` "found %d out of %d pairs" -/
-theorem ct2wuss_total' (n : Nat) (ct : List Nat) (hct : CtOk n ct) :
-    (∃ ss, ct2wuss ct = .ok ss) ∨ (∃ p, ct2wuss ct = .error (.einvalLetters p)) := by
+theorem ct2wussGen_total (simple : Bool) (n : Nat) (ct : List Nat) (hct : CtOk n ct) :
+    (∃ ss, ct2wussGen simple ct = .ok ss) ∨ (∃ p, ct2wussGen simple ct = .error (.einvalLetters p)) := by
   have hl1 : ct.length = n + 1 := hct.1
   have hn1 : ct.length - 1 = n := by omega
-  unfold ct2wuss ct2wussGen
+  unfold ct2wussGen
   simp only
   rw [hn1]
-  cases hrun : c2wMain false ct.toArray n (n + 1) 1 []
-      { ss := Array.replicate n (if false = true then (0x2e : UInt8) else 0x3a), cct := ct.toArray,
+  cases hrun : c2wMain simple ct.toArray n (n + 1) 1 []
+      { ss := Array.replicate n (if simple = true then (0x2e : UInt8) else 0x3a), cct := ct.toArray,
         rb := Array.replicate 26 (-1), auxpk := [], auxss := [], reached := 0 } with
   | error e =>
-    obtain ⟨p, hp⟩ := c2wMain_err n ct hct (n+1) 1 [] _ ct _ e (by omega) (Nat.le_refl _) (ginv_init n ct hct) hrun
+    obtain ⟨p, hp⟩ := c2wMain_err simple n ct hct (n+1) 1 [] _ ct _ e (by omega) (Nat.le_refl _) (ginv_init simple n ct hct)
+      (fun _ a ha => by simp at ha) hrun
     right; exact ⟨p, by rw [hp]⟩
   | ok st =>
-    have hr := c2wMainC n ct hct (n+1) 1 [] _ st ct _ (by omega) (by omega) (Nat.le_refl _) (ginv_init n ct hct)
-      (by simp [cntSpec_init]) hrun
+    have hr := c2wMainC simple n ct hct (n+1) 1 [] _ st ct _ (by omega) (by omega) (Nat.le_refl _) (ginv_init simple n ct hct)
+      (fun _ a ha => by simp at ha) (by simp [cntSpec_init]) hrun
     have : countPairs ct = st.reached := by rw [hr, countPairs_eq_rightEnds n ct hct]
     left
     simp only [this, bne_self_eq_false, Bool.false_eq_true, if_false]
     exact ⟨_, rfl⟩
+
+theorem ct2wuss_total' (n : Nat) (ct : List Nat) (hct : CtOk n ct) :
+    (∃ ss, ct2wuss ct = .ok ss) ∨ (∃ p, ct2wuss ct = .error (.einvalLetters p)) :=
+  ct2wussGen_total false n ct hct
 
 end EaselModel.Msa
